@@ -19,8 +19,32 @@ EXPLANATION = ("Definitions and uses of the key variable, the cloned game and th
 DRIVER = "search::get_best_move_until_stop"
 
 
+def writer_text(ctx, F):
+    """The line is printed with Move::uci_notation: a playable move printed under a wrong text is an unplayable line.  The
+    writer half of C12 (promotion letters, castling texts, coordinates, en-passant squares = the board surgery of push)."""
+    from . import p12
+    from .common import discr_map
+    D = discr_map(F)
+    before, nv = len(ctx.instances), len(ctx.violations)
+    p12.u2(ctx, F, D)
+    p12.u3(ctx, F, D)
+    p12.u4(ctx, F, D)
+    keep_i = [i for i in ctx.instances[before:] if str(i["instance"]).startswith(("writer:", "push:", "floor:"))]
+    keep_v = [v for v in ctx.violations[nv:] if str(v["instance"]).startswith(("writer:", "push:", "floor:"))]
+    del ctx.instances[before:]
+    del ctx.violations[nv:]
+    for i in keep_i:
+        i["rule"] = "C18.V4(" + i["rule"] + ")"
+        ctx.instances.append(i)
+    for v in keep_v:
+        v["rule"] = "C18.V4(" + v["rule"] + ")"
+        v["key"] = "C18.V4|" + v["key"]
+        ctx.violations.append(v)
+
+
 def run(ctx):
     F = ctx.facts
+    writer_text(ctx, F)
     fn = F.fn(DRIVER)
     body = fn["hir"]["body"]
     env = hir.Env(fn["hir"], F)
